@@ -476,7 +476,21 @@ pub fn shard(ctx: &Ctx) -> Shard {
         }
         let mut cfg = random_cfg(&mut rng, p.n_keys, p.n_meta, Some(true));
         cfg.validate_data = rng.chance(1, 3);
-        let ops = gen_history(&mut rng, &p);
+        let mut ops = gen_history(&mut rng, &p);
+        // one history in six starts with 9..13 small blobs holding tied versions of the same keys: the directory
+        // then has two-digit blob ids, and the order in which a restart lists the blobs (numeric, not by name)
+        // decides which tied version is served and which blob becomes the active one
+        if rng.chance(1, 6) {
+            let m = rng.range(9, 13);
+            let mut pre = Vec::new();
+            for i in 0..m {
+                pre.push(Op::Put { k: (i % 2) as u16, ts: 1, meta: None, size: 9 + i as u32 });
+                pre.push(Op::ForceUpdate { pred: true });
+            }
+            pre.extend(ops);
+            ops = pre;
+            sh.add("histories_many_blobs", 1);
+        }
         let hid = ((ctx.shard as u64) << 20) | n;
         match cfg.keylen {
             4 => history_eval::<4>(ctx, &mut sh, &mut rng, &cfg, &ops, hid),
